@@ -24,9 +24,15 @@ COMMA = ','
 PLUS = '+'
 @frag [ \n]+ @discard
 STRB = '"' @push_mode(Str)
+@frag '{' @push_mode(Cm) @discard
 @mode Str {
   STRE = '"' @pop_mode
   CH = ~["]+
+}
+@mode Cm {
+  @frag '{' @push_mode(Cm) @discard
+  @frag '}' @pop_mode @discard
+  @frag ~[{}]+ @discard
 }
 
 @parser
@@ -35,7 +41,7 @@ stmt = ID '(' @list(expr, ',')? ')' ';'
      | @error ';'
 expr = expr '+' term @left(1)
      | term
-term = NUM | ID | STRB CH? STRE
+term = NUM | ID | STRB CH? STRE | '(' expr ')'
 `
 
 const c18LoxB = `@lexer
@@ -170,6 +176,7 @@ func (p *parser) on_term(t Token) string                   { return p.log("%s", 
 func (p *parser) on_term__str(_ Token, c Token, _ Token) string {
 	return p.log("str(%q)", c.Str)
 }
+func (p *parser) on_term__par(_ Token, e string, _ Token) string { return p.log("par(%s)", e) }
 `
 
 const c18UserB = `package gb
@@ -218,6 +225,21 @@ func main() {
 	b2 := func() string { return gb.Parse("= 1. Zz.") }
 	b1 := func() string { return gb.Parse("1. Ab=2. 3 3. 4.") }
 	l1 := func() string { return ga.Lex("f(\"a b\", 12) $ x") }
+	// deep nesting: the parse stack and the mode stack grow past any initial
+	// capacity (growth policies are a place where instances could meet)
+	deep := func(open, close string, n int) string {
+		var s string
+		for i := 0; i < n; i++ {
+			s += open
+		}
+		s += "1"
+		for i := 0; i < n; i++ {
+			s += close
+		}
+		return s
+	}
+	a6 := func() string { return ga.Parse("f(" + deep("(", ")", 36) + ");") }
+	l2 := func() string { return ga.Lex(deep("{", "}", 36) + " x") }
 	scenarios := []*sched.Scenario{
 		{Name: "2 threads, same grammar, second with error recovery, _onBounds", Bodies: []func() string{a1, a2}},
 		{Name: "2 threads, two grammars linked in one program", Bodies: []func() string{a2, b1}},
@@ -225,6 +247,8 @@ func main() {
 		{Name: "2 threads, two grammars, both in error recovery", Bodies: []func() string{a5, b2}},
 		{Name: "lexer-only thread and parser thread sharing the mode tables", Bodies: []func() string{l1, a3}},
 		{Name: "3 threads: same grammar twice and another grammar", Bodies: []func() string{a3, a1, b1}},
+		{Name: "2 threads, same grammar, one with a parse stack 36 deep", Bodies: []func() string{a6, a3}},
+		{Name: "lexer-only thread with a mode stack 36 deep and a parser thread", Bodies: []func() string{l2, a3}},
 	}
 	// short inputs: the deeper bound and the stateful search complete on these
 	s1 := func() string { return ga.Parse("f(1);") }
@@ -265,39 +289,60 @@ import (
 	"example.com/st3/gb"
 )
 
+func deep(open, close string, n int) string {
+	var s string
+	for i := 0; i < n; i++ {
+		s += open
+	}
+	s += "1"
+	for i := 0; i < n; i++ {
+		s += close
+	}
+	return s
+}
+
 func main() {
 	bodies := []func() string{
 		func() string { return ga.Parse("f(1, x+2);g();") },
 		func() string { return ga.Parse("f(1 2); h(\"s\" + 3;\n ok(z);") },
 		func() string { return gb.Parse("1. Ab=2. 3 3. 4.") },
 		func() string { return ga.Lex("f(\"a b\", 12) $ x") },
+		func() string { return ga.Parse("f(" + deep("(", ")", 40) + ");") },
+		func() string { return ga.Lex(deep("{", "}", 40) + " x") },
+		func() string { return ga.Parse("f(" + deep("(", ")", 70) + ");") },
 	}
-	var solo []string
-	for _, b := range bodies {
-		solo = append(solo, b())
-	}
+	// The concurrent phase comes FIRST, in a process that has not parsed anything
+	// yet: state that is built or grown on first use is then touched by several
+	// goroutines at once. The reference outputs are computed afterwards.
+	const G, N = 8, 200
+	outs := make([][]string, G)
 	var wg sync.WaitGroup
-	var mu sync.Mutex
-	bad := 0
-	for g := 0; g < 8; g++ {
+	for g := 0; g < G; g++ {
 		wg.Add(1)
 		go func(g int) {
 			defer wg.Done()
-			for i := 0; i < 200; i++ {
-				k := (g + i) % len(bodies)
-				if o := bodies[k](); o != solo[k] {
-					mu.Lock()
-					if bad < 3 {
-						fmt.Printf("MISMATCH body %d: %s\n   solo: %s\n", k, o, solo[k])
-					}
-					bad++
-					mu.Unlock()
-				}
+			for i := 0; i < N; i++ {
+				outs[g] = append(outs[g], bodies[(g+i)%len(bodies)]())
 			}
 		}(g)
 	}
 	wg.Wait()
-	fmt.Printf("runs=%d mismatches=%d\n", 8*200, bad)
+	var solo []string
+	for _, b := range bodies {
+		solo = append(solo, b())
+	}
+	bad := 0
+	for g := 0; g < G; g++ {
+		for i, o := range outs[g] {
+			if k := (g + i) % len(bodies); o != solo[k] {
+				if bad < 3 {
+					fmt.Printf("MISMATCH body %d: %s\n   solo: %s\n", k, o, solo[k])
+				}
+				bad++
+			}
+		}
+	}
+	fmt.Printf("runs=%d mismatches=%d\n", G*N, bad)
 	if bad > 0 {
 		os.Exit(3)
 	}
